@@ -49,8 +49,9 @@ ASSUMPTIONS = [
     "max(img_y // nslice, step) is checked by the driver on every case, not proved (the layout theorems hold for every "
     "width >= 1)",
     "pass 1 / pass 2 numerics are abstract functions of the input in the protocol model (their contract is C06)",
-    "'changing the number of stripes changes the maps by a small fraction of the local noise' is numerical and sampled "
-    "by C06, not part of this check",
+    "'changing the number of stripes changes the maps by a small fraction of the local noise' is numerical: sampled here "
+    "(gradient images, tall / wide / square boxes, nslice 1 vs 2,3,4, bound SENS_C x local noise), not proved; the halo "
+    "arithmetic behind it is proved (halo_sufficient)",
 ]
 TRUSTED = ["Gen.C07.widthY / ymins / ymaxs regenerated from BANE.filter_mc_sharemem by py2lean.py (int mode)",
            "hand model Aegean.Model.C07 (pool, CPython barrier, per-stripe phases), tied to the code by hook-driven "
@@ -197,6 +198,9 @@ def make_fits(path, rows, cols, seed, content='noise'):
         img[m] = np.nan
     elif content == 'finite':
         pass
+    elif content.startswith('grad:'):
+        # sigma = 1 noise on a background climbing <g> sigma per row, no NaN (stripe-count sensitivity)
+        img = rs.normal(0.0, 1.0, size=(rows, cols)) + float(content.split(':')[1]) * yy
     elif content == 'nanblock':
         img[rows // 4: rows // 4 + 6, cols // 4: cols // 4 + 10] = np.nan
     elif content.startswith('blank:'):
@@ -688,12 +692,13 @@ class Config(object):
 
 
 def do_run(ctx, work, tag, cfg, schedule=None, faults=(), hook=True, watchdog=WATCHDOG):
-    fpath = os.path.join(work, f"img_{cfg.rows}_{cfg.cols}_{cfg.content.replace(':', '-')}.fits")
+    fpath = os.path.join(work, f"img_{cfg.rows}_{cfg.cols}_{getattr(cfg, 'imgseed', 0)}_{cfg.content.replace(':', '-')}.fits")
     if not os.path.exists(fpath):
         tmp = fpath + f'.{os.getpid()}.{tag}.tmp'
-        make_fits(tmp, cfg.rows, cfg.cols, seed=cfg.rows * 1000 + cfg.cols, content=cfg.content)
+        make_fits(tmp, cfg.rows, cfg.cols, seed=cfg.rows * 1000 + cfg.cols + getattr(cfg, 'imgseed', 0), content=cfg.content)
         os.replace(tmp, fpath)
-    r = run_bane(work, tag, fpath, (cfg.rows, cfg.cols), (cfg.step, cfg.step), (cfg.box, cfg.box), cfg.cores,
+    pair = lambda v: tuple(v) if isinstance(v, (list, tuple)) else (v, v)  # noqa: E731
+    r = run_bane(work, tag, fpath, (cfg.rows, cfg.cols), pair(cfg.step), pair(cfg.box), cfg.cores,
                  cfg.nslice, cfg.mask, schedule=schedule, faults=faults, hook=hook, entry=cfg.entry, watchdog=watchdog,
                  patience=max(0.35, watchdog / 20.0))
     r['fits'] = fpath
@@ -980,6 +985,83 @@ def execute(ctx, plan, parallel=5):
     return results
 
 
+# =============================================================================================
+# stripe-count sensitivity: "changing the number of stripes changes the maps by at most a small
+# fraction of the local noise"
+# =============================================================================================
+
+# Spec bound: max|map(nslice) - map(1 stripe)| / local noise <= SENS_C, for bkg and for rms.
+# Measured on the clean tree (hook + fixes committed), quick configurations below, VERIF_SEED 0..4:
+# see SENS_CLEAN (filled from the measurements; the evidence of every run also records what it measured).
+SENS_C = 0.5
+SENS_CLEAN = ("measured on /repo (hook + fixes committed), VERIF_SEED 0-4 x 2 images per box: nslice 2 and 4 (stripe edges on grid "
+              "nodes): 0.000/0.000; nslice 3 (edges off the grid): tall 80x16 bkg<=0.116 rms<=0.155, wide 16x80 bkg<=0.356 "
+              "rms<=0.069, square 32x32 bkg<=0.254 rms<=0.088")
+
+# (rows, cols, grid(rows, cols), box(rows, cols)) — non-square boxes in both orientations, and square; grid != box/n
+SENS_CASES = [
+    ('tall', 160, 48, (8, 8), (80, 16)),
+    ('wide', 160, 48, (8, 8), (16, 80)),
+    ('square', 160, 48, (8, 8), (32, 32)),
+]
+
+
+def sensitivity(ctx, cases=None, slices=(2, 3, 4), nseeds=1):
+    import numpy as np
+    from concurrent.futures import ThreadPoolExecutor
+    wd = calibrate(ctx)
+    _BATCH[0] += 1
+    work = os.path.join(ctx.tmpdir(), f'sens{_BATCH[0]}')
+    os.makedirs(work, exist_ok=True)
+    jobs = []
+    for name, rows, cols, grid, box in (cases or SENS_CASES):
+        for k in range(nseeds):
+            imgseed = ctx.rng.randrange(1, 10 ** 6)
+            for ns in (1,) + tuple(slices):
+                cfg = Config(rows, cols, list(grid), list(box), 4, ns, True, 'filter_image', content='grad:0.5')
+                cfg.imgseed = imgseed
+                jobs.append((name, imgseed, ns, cfg))
+
+    def one(j):
+        name, imgseed, ns, cfg = jobs[j]
+        return do_run(ctx, work, f's{j}', cfg, hook=False, watchdog=max(wd, 20))
+    with ThreadPoolExecutor(max_workers=5) as ex:
+        res = list(ex.map(one, range(len(jobs))))
+    maps = {}
+    for (name, imgseed, ns, cfg), r in zip(jobs, res):
+        case = dict(kind='sensitivity', cfg=cfg.d(), imgseed=imgseed, orientation=name)
+        if r['outcome'] != 'done':
+            ctx.fail('spec', case, f"BANE ended with {r['outcome']} on the gradient image ({name} box): "
+                     f"{str((r.get('result') or {}).get('emsg'))[-300:]}", dict(what=str(r['outcome']), sensitivity=True))
+            continue
+        maps[(name, imgseed, ns)] = (np.load(os.path.join(r['out'], 'bkg.npy')).astype(np.float64),
+                                     np.load(os.path.join(r['out'], 'rms.npy')).astype(np.float64), cfg,
+                                     len((r.get('layout') or {}).get('regions') or []))
+    measured = []
+    for (name, imgseed, ns), (b, rm, cfg, nreal) in sorted(maps.items()):
+        if ns == 1 or (name, imgseed, 1) not in maps:
+            continue
+        b1, r1, cfg1, _ = maps[(name, imgseed, 1)]
+        with np.errstate(invalid='ignore', divide='ignore'):
+            db = float(np.nanmax(np.abs(b - b1) / r1))
+            dr = float(np.nanmax(np.abs(rm - r1) / r1))
+        where = int(np.nanargmax(np.nanmax(np.abs(b - b1) / r1, axis=1)))
+        measured.append(dict(box=name, nslice=ns, stripes=nreal, dbkg=round(db, 4), drms=round(dr, 4)))
+        case = dict(kind='sensitivity', cfg=cfg.d(), imgseed=imgseed, orientation=name, against_nslice=1)
+        ctx.count('sensitivity:' + name)
+        ctx.case(dict(case, dbkg=round(db, 4), drms=round(dr, 4)), nontrivial_key=('sens', name, imgseed, ns))
+        if not (db <= SENS_C and dr <= SENS_C) or not np.isfinite(db) or not np.isfinite(dr):
+            ctx.fail('spec', case,
+                     f"{nreal} stripes vs 1 stripe on a {cfg.rows}x{cfg.cols} image with a 0.5 sigma/row gradient, grid {cfg.step}, "
+                     f"box {cfg.box} ({name}): max|dbkg|/noise = {db:.3f}, max|drms|/noise = {dr:.3f} (largest near row {where}); "
+                     f"the property allows a small fraction of the noise (bound {SENS_C}; clean tree: {SENS_CLEAN})",
+                     dict(what='stripe-count-sensitivity', orientation=name))
+    ctx.extra['stripe_count_sensitivity'] = dict(bound_c=SENS_C, clean_tree_reference=SENS_CLEAN, measured=measured,
+                                                 max_dbkg=max([m['dbkg'] for m in measured] or [0]),
+                                                 max_drms=max([m['drms'] for m in measured] or [0]))
+    return measured
+
+
 # (rows, cols, step, box, cores, nslice, mask) and the number of stripes the layout realises
 QUICK_CFGS = [
     (Config(40, 24, 8, 24, 2, 2, True), 2),
@@ -1021,6 +1103,7 @@ def run(ctx):
     common.use_repo()
     layout_sweep(ctx, layout_cases(ctx, wide=not ctx.quick))
     exit_paths(ctx)
+    sensitivity(ctx, nseeds=1 if ctx.quick else 4)
     plan = plan_runs(ctx, QUICK_CFGS, thorough=not ctx.quick)
     execute(ctx, plan)
 
@@ -1055,6 +1138,12 @@ def replay(ctx, rec):
         return
     if c.get('kind') == 'exitpath':
         exit_paths(ctx)
+        return
+    if c.get('kind') == 'sensitivity':
+        g = c['cfg']
+        ctx.rng.seed(c.get('imgseed', 0))
+        sensitivity(ctx, cases=[(c.get('orientation', 'replay'), g['rows'], g['cols'], tuple(g['step']), tuple(g['box']))],
+                    slices=(g['nslice'],) if g['nslice'] != 1 else (2, 3, 4))
         return
     cfg = Config.of(c['cfg'])
     schedule = [tuple(x) for x in c.get('schedule') or []] or None
